@@ -164,6 +164,7 @@ func (c *Chain) planEpoch(e common.Epoch, sh *common.ShufflingEpoch, epc *common
 		}
 	}
 	c.Planned[e] = p
+	c.modeOf[e] = mode
 	c.Stats.Inc("epochs_mode_" + mode)
 	delete(c.Planned, e-3)
 	return p
@@ -231,7 +232,7 @@ type ProposeCtx struct {
 	used    map[common.ValidatorIndex]bool
 	removed int
 	Ops     map[string]int
-	// deposits the state already expects (before this block's eth1 vote)
+	// deposits this block must carry (after its own eth1 vote)
 	PendingDeposits uint64
 	preSlot         common.Slot // slot of the pre-state (corruption stream)
 }
@@ -950,17 +951,13 @@ func (c *Chain) Propose(s common.Slot) (bool, error) {
 		c.genPending(a, eA, flats)
 	}
 	c.attGenUpTo = s
-	if e1, err := A.Eth1Data(); err == nil {
-		if di, err := A.Eth1DepositIndex(); err == nil && e1.DepositCount > di {
-			p.PendingDeposits = uint64(e1.DepositCount - di)
-		}
-	}
+	c.fillEth1AndDeposits(p)
+	p.PendingDeposits = uint64(len(p.B.Deposits))
 	if c.Scenario != nil && c.Scenario.BeforeBlock != nil {
 		c.Scenario.BeforeBlock(c, p)
 	}
 	c.defaultOps(p)
 	c.fillAttestations(p)
-	c.fillEth1AndDeposits(p)
 	if fork >= Altair {
 		c.fillSync(p)
 	}
@@ -1032,6 +1029,20 @@ func (c *Chain) Propose(s common.Slot) (bool, error) {
 		c.recordEngine(line, res.Engine)
 		c.problem("zrnt rejected an honest block at slot %d (%s, line %d): dry=%v real=%v panic=%v ops=%s", s, fork, line, dryErr, res.Err, res.PanicVal, tags)
 		c.Stats.Inc("honest_rejected")
+		if dryErr != nil {
+			// the state root could not be computed, so the line above is rejected by anyone; the same block without result
+			// validation shows the disagreement (the Spec accepts what the producer believes valid)
+			r0 := RunTransition(sp, c.St, nil, sb, fork, false, engMode, -1, -1)
+			post := r0.Verdict()
+			if r0.Post != nil {
+				post = c.Rec.State(r0.Post)
+			}
+			l0 := c.Rec.Line("trans %s %s 0 %s %s kind=honest ctx=fresh state_root=unknown %s", preID, blkID, engMode, post, tags)
+			c.recordEngine(l0, r0.Engine)
+			if r0.Err != nil {
+				c.Rec.Comment("error: " + firstLine(r0.Err.Error()))
+			}
+		}
 		return false, fmt.Errorf("honest block rejected at slot %d: dry=%v real=%v", s, dryErr, res.Err)
 	}
 	postID := c.Rec.State(res.Post)
